@@ -620,9 +620,43 @@ def check_normalize_body(ctx, res, config="all"):
     b = bs[0]
     errs = []
     names = [callee_name(t) for i, t in b.calls() if i in b.live_blocks()]
-    if "truncate" not in names:
+    if "truncate" not in names and "pop" in names and "last" in names:
+        # idiom B: `while let Some(&0) = self.data.last() { self.data.pop(); }` - pop in a cycle that is entered exactly when the
+        # last digit is zero and left when the vector is empty or its last digit is non-zero
+        pops = [i for i, t in b.calls() if callee_name(t) == "pop" and i in b.live_blocks()]
+        lasts = [i for i, t in b.calls() if callee_name(t) == "last" and i in b.live_blocks()]
+        ok_b = False
+        for pi in pops:
+            in_cycle = any(pi in b.reachable(s_) for s_ in b.succ(pi))
+            # the pop is reached only through the `== 0` edge of a switch on the digit behind last()
+            guarded = False
+            for j, t in b.terms("switch"):
+                if j not in b.live_blocks() or not b.block_dominates(j, pi):
+                    continue
+                m = core.switch_edges(b, j)
+                if 0 in m and b.edge_dominates((j, m[0]), pi) and any(b.block_dominates(li, j) for li in lasts):
+                    from .tests import Atoms as _A, calls_of as _co
+
+                    if "last" in _co(_A(b).of_operand(t["discr"])):
+                        guarded = True
+            # ... and every return is reached only when that test fails (or last() is None): a path from pop to return passes last() again
+            back = all(any(li in b.reachable(pi, without_blocks=[r_]) for li in lasts) for r_ in b.return_blocks()) and not any(r_ in b.reachable(pi, without_blocks=lasts) for r_ in b.return_blocks())
+            if in_cycle and guarded and back:
+                ok_b = True
+        if ok_b:
+            res.ok("R1-normalize-body", b.path, {"idiom": "pop while the last digit is zero"})
+        else:
+            res.fail(Finding("R1-normalize-body", b.path, "normalize pops digits but not in a loop that runs exactly while the last digit is zero", b))
+        errs = None
+    elif "truncate" not in names and "rposition" not in names:
+        res.note("R1-normalize-body: BigUint::normalize uses neither truncate(rposition+1) nor a pop-while-zero loop - its stripping of all high zeros is not decided")
+        res.ok("R1-normalize-body", b.path, {"undecided": "unrecognised idiom"}, nontrivial=False)
+        errs = None
+    if errs is None:
+        pass
+    elif "truncate" not in names:
         errs.append("no truncate() of the digit vector")
-    if "rposition" not in names and "rposition" not in " ".join(n or "" for n in names):
+    if errs is not None and "rposition" not in names and "rposition" not in " ".join(n or "" for n in names):
         errs.append("the last non-zero digit is not located with rposition()")
     # the closure must test `digit != 0`
     cl = [c for c in facts.bodies if c.kind == "Closure" and c.j.get("closure_of") == b.path]
@@ -632,7 +666,7 @@ def check_normalize_body(ctx, res, config="all"):
             rv = s.get("rv")
             if rv and rv["k"] == "binop" and rv["op"] == "Ne" and op_const(rv["b"]) == 0:
                 okc = True
-    if not okc:
+    if not okc and errs is not None:
         errs.append("the rposition predicate is not `digit != 0`")
     # truncate length = map_or(0, |i| i + 1) of the rposition result
     from .tests import Atoms, calls_of, consts_of
@@ -641,12 +675,14 @@ def check_normalize_body(ctx, res, config="all"):
     for i, t in b.calls():
         if callee_name(t) == "truncate" and i in b.live_blocks():
             a = at.of_operand(t["args"][1])
-            if not ({"rposition", "map_or"} <= calls_of(a)) or 0 not in consts_of(a):
+            if errs is not None and (not ({"rposition", "map_or"} <= calls_of(a)) or 0 not in consts_of(a)):
                 errs.append("truncate length is not rposition(..).map_or(0, |i| i + 1)")
     cl2 = [c for c in cl if any(s.get("rv", {}).get("k") == "binop" and s["rv"]["op"].startswith("Add") and op_const(s["rv"]["b"]) == 1 for i, si, s in c.stmts())]
-    if not cl2:
+    if not cl2 and errs is not None:
         errs.append("the kept length is not (index of last non-zero digit) + 1")
-    if errs:
+    if errs is None:
+        pass
+    elif errs:
         res.fail(Finding("R1-normalize-body", b.path, "; ".join(errs), b))
     else:
         res.ok("R1-normalize-body", b.path, {"truncate_to": "rposition(d != 0) + 1, or 0"})
